@@ -57,7 +57,23 @@ def merge_expressions(exps: BoolExpList) -> BoolExpList:
 def apply_cse(exps: BoolExpList) -> BoolExpList:
     lsts = list(zip(*exps))
     repl, red = cse(list(lsts[1]))
-    res = repl + list(zip(lsts[0], red))
+
+    defined = set(lsts[0])
+    if not any(r_exp.free_symbols & defined for (_, r_exp) in repl):
+        return repl + list(zip(lsts[0], red))
+
+    # Some common sub-expressions refer to symbols defined by the list itself:
+    # place each of them right before its first use instead of at the top.
+    res = []
+    pending = list(repl)
+    for sym, exp in zip(lsts[0], red):
+        needed = set(exp.free_symbols)
+        for r_sym, r_exp in reversed(pending):
+            if r_sym in needed:
+                needed |= r_exp.free_symbols
+        res.extend([r for r in pending if r[0] in needed])
+        pending = [r for r in pending if r[0] not in needed]
+        res.append((sym, exp))
     return res
 
 
